@@ -141,12 +141,19 @@ class SchemaMagic(DynEncoderModelMetaclass):
 
         # prevent most changes to pydantic config
         if conf := dct.get("Config"):
-            for conffield in conf.__dict__:
-                if (
-                    is_public_name(conffield)
-                    and conffield not in ALLOWED_SCHEMA_CONFIG_FIELDS
-                ):
-                    raise TypeError(f"{name}: {conffield} must not be set or changed!")
+            # pydantic merges everything the Config class inherits - so look at all
+            # classes except for the ones the config of the parent is built from
+            parent_conf = baseschema.__config__
+            for conf_cls in conf.__mro__:
+                if conf_cls is object or issubclass(parent_conf, conf_cls):
+                    continue
+                for conffield in conf_cls.__dict__:
+                    if (
+                        is_public_name(conffield)
+                        and conffield not in ALLOWED_SCHEMA_CONFIG_FIELDS
+                    ):
+                        msg = f"{name}: {conffield} must not be set or changed!"
+                        raise TypeError(msg)
 
         # generate pydantic model of schema (further checks are easier that way)
         # can't do these checks in __init__, because in __init__ the bases could be mangled
